@@ -295,4 +295,208 @@ theorem encFeed_simH (p : Params) (hp : p.Valid) (i : Nat) (g : List UInt8) (bas
       · rw [feed_succ p fuel e.st e.nid .borrow input hne]; exact k4
       · rw [feed_succ p fuel e.st e.nid .borrow input hne]; exact k5
 
+/-! ### Whole runs with all input methods -/
+
+/-- A call of the full vocabulary: the calls of `EncWorldComp.Call` (borrow / copy pieces, drains), or
+`encode_read(reader, count, attempts)` with a scripted reader — anchored input read into the codec's own
+arena (`encode_anchored(self.read_n(..)?)` is the same composite). -/
+inductive ACall where
+  | call (c : Call)
+  | read (count attempts : Nat) (src : List UInt8) (script : List ReadN.Ev)
+  deriving Repr, DecidableEq
+
+/-- The bytes an `encode_read` / `decode_read` call feeds to the state machine: what `read_n` returns
+(`C17`: the delivered prefix of the reader's stream), nothing when it fails. -/
+def readPiece (count attempts : Nat) (src : List UInt8) (script : List ReadN.Ev) : List (Method × List UInt8) :=
+  match (ReadN.readNCore ⟨src, script⟩ count attempts).res with
+  | .ok got => [(.borrow, got)]
+  | .err _ => []
+
+/-- The pieces fed by a call list (an anchored piece reaches the state machine through `encode`, the
+borrow method). -/
+def apieces : List ACall → List (Method × List UInt8)
+  | [] => []
+  | .call c :: t => pieces [c] ++ apieces t
+  | .read count attempts src script :: t => readPiece count attempts src script ++ apieces t
+
+/-- All input bytes of a call list. -/
+def ainputOf (calls : List ACall) : List UInt8 := ((apieces calls).map (·.2)).flatten
+
+def encCallA (p : Params) (i : Nat) (r : Run) : ACall → Option Run
+  | .call c => encCall p i r c
+  | .read count attempts src script =>
+    (encodeRead p r.w i r.e ⟨src, script⟩ count attempts).map fun x => ⟨x.1, x.2.1, r.drained⟩
+
+def encCallsA (p : Params) (i : Nat) : Run → List ACall → Option Run
+  | r, [] => some r
+  | r, c :: t =>
+    match encCallA p i r c with
+    | none => none
+    | some r' => encCallsA p i r' t
+
+/-- `Encoder::new` followed by any calls. -/
+def encPrefixA (p : Params) (pol : Policy) (tun : Tuning) (calls : List ACall) : Option Run :=
+  match encInit p (World.fresh pol tun) 0 with
+  | none => none
+  | some (w1, e1) => encCallsA p 0 ⟨w1, e1, []⟩ calls
+
+/-- `Encoder::new()`, the calls, `Encoder::finish()`: the final world and the drained bytes. -/
+def encRunA (p : Params) (pol : Policy) (tun : Tuning) (calls : List ACall) : Option (World × List UInt8) :=
+  match encPrefixA p pol tun calls with
+  | none => none
+  | some r => (encFinish p r.w 0 r.e).map fun w' => (w', r.drained)
+
+/-- The old vocabulary embedded. -/
+theorem encCallsA_call (p : Params) (i : Nat) (calls : List Call) (r : Run) :
+    encCallsA p i r (calls.map .call) = encCalls p i r calls := by
+  induction calls generalizing r with
+  | nil => rfl
+  | cons c t ih =>
+    simp only [List.map_cons, encCallsA, encCalls, encCallA]
+    cases encCall p i r c with
+    | none => rfl
+    | some r' => exact ih r'
+
+theorem encRunA_call (p : Params) (pol : Policy) (tun : Tuning) (calls : List Call) :
+    encRunA p pol tun (calls.map .call) = encRun p pol tun calls := by
+  rw [encRun_eq]
+  unfold encRunA encPrefixA encPrefix
+  cases encInit p (World.fresh pol tun) 0 with
+  | none => rfl
+  | some x =>
+    obtain ⟨w1, e1⟩ := x
+    simp only [encCallsA_call]
+    cases encCalls p 0 ⟨w1, e1, []⟩ calls <;> rfl
+
+theorem pieces_feeds (X : List (Method × List UInt8)) : pieces (X.map fun x => Call.feed x.1 x.2) = X := by
+  induction X with
+  | nil => rfl
+  | cons x t ih => simp [pieces, ih]
+
+theorem pieces_cons (c : Call) (t : List Call) : pieces (c :: t) = pieces [c] ++ pieces t := by
+  cases c <;> simp [pieces]
+
+theorem apieces_call (calls : List Call) : apieces (calls.map .call) = pieces calls := by
+  induction calls with
+  | nil => rfl
+  | cons c t ih =>
+    simp only [List.map_cons, apieces, ih]
+    cases c <;> simp [pieces]
+
+theorem encFeed_runH (p : Params) (hp : p.Valid) (i : Nat) (d : List UInt8) (base : Slice)
+    (w : World) (v : Iov) (e : EncW) (g : List UInt8) (input : List UInt8) (acc : List Emit)
+    (q : Pipe) (evs : List Ev) (hv : w.iov i = some v) (hsim : SimV w v g e.toks q) (hq : q = runEv Pipe.empty evs)
+    (hev : prodOps evs = acc.map (·.op)) (hrel : Rel p e.st e.nid q.total (input.foldl (byteStep p) BS.init))
+    (hheld : HeldOk w v base) (hbytes : w.sliceBytes base = d) :
+    ∃ w' e', encFeed p (2 * d.length + 2) w i e .borrow base d 0 = some (w', e') ∧
+      RunInv p i ⟨w', e', g⟩ (input ++ d) (acc ++ (Enc.feedAll p e.st e.nid .borrow d).2.2) ∧
+      e'.st = (Enc.feedAll p e.st e.nid .borrow d).1 ∧ e'.nid = (Enc.feedAll p e.st e.nid .borrow d).2.1 := by
+  obtain ⟨h1, h2⟩ := fold_init_inv p hp input
+  have hb0 : ({ base with off := base.off + 0, len := base.len - 0 } : Slice) = base := by simp
+  obtain ⟨w', v', e', k1, k2, k3, k4, k5, _⟩ :=
+    encFeed_simH p hp i g base (2 * d.length + 2) w v e q _ d 0 hv hsim hrel h1 h2
+      (by rw [hb0]; exact hheld) (by rw [hb0]; exact hbytes)
+  have hfs := feed_sim p hp .borrow (2 * d.length + 2) e.st e.nid q.total _ d hrel h1 h2 (by omega)
+  refine ⟨w', e', k1, ?_, k4, k5⟩
+  refine ⟨v', _, evs ++ ((Enc.feed p (2 * d.length + 2) e.st e.nid .borrow d).2.2.map (·.op)).map Ev.prod, k2, k3, ?_, ?_, ?_⟩
+  · rw [Woodpile.Pipe.runEv_append, ← hq, runEv_prods]
+  · rw [Woodpile.Pipe.prodOps_append, hev, prodOps_prods, List.map_append]; rfl
+  · rw [k4, k5, run_total, List.foldl_append]
+    exact hfs
+
+/-- `readOwn` in terms of `World.readN` on the iovec's arena. -/
+theorem readOwn_eq (w : World) (i : Nat) (v : Iov) (r : ReadN.Reader) (count attempts : Nat)
+    (hv : w.iov i = some v) (w1 : World) (ar' : Arena) (res : Except Nat ASlice) (o : ReadN.Out)
+    (h : w.readN v.arena r count attempts = (w1, ar', res, o)) (hv1 : w1.iov i = some v) :
+    readOwn w i r count attempts = some (w1.setIov i (some { v with arena := ar' }), res, o) := by
+  unfold readOwn
+  rw [hv]
+  simp only [h, hv1]
+
+theorem SimV.pushed0 {w w' : World} {v v' : Iov} {g : List UInt8} {toks : List Backref} {q : Pipe}
+    (h : SimV w v g toks q) (hp : Pushed w w' v v' []) : SimV w' v' g toks q := by
+  have := h.append hp
+  rwa [Pipe.append_nil] at this
+
+/-- One call of the full vocabulary keeps the run invariant. -/
+theorem encCallA_sim (p : Params) (hp : p.Valid) (i : Nat) (r : Run) (c : ACall) (input : List UInt8)
+    (acc : List Emit) (hinv : RunInv p i r input acc) :
+    ∃ r' acc', encCallA p i r c = some r' ∧ RunInv p i r' (input ++ ainputOf [c]) acc' ∧
+      ∀ rest, Enc.runPieces.go p (apieces (c :: rest)) r.e.st r.e.nid acc =
+        Enc.runPieces.go p (apieces rest) r'.e.st r'.e.nid acc' := by
+  cases c with
+  | call c =>
+    obtain ⟨r', acc', h1, h2, h3⟩ := encCall_sim p hp i r c input acc hinv
+    refine ⟨r', acc', h1, ?_, ?_⟩
+    · have : ainputOf [ACall.call c] = inputOf [c] := by simp [ainputOf, inputOf, apieces]
+      rw [this]; exact h2
+    · intro rest
+      have := h3 ((apieces rest).map fun x => Call.feed x.1 x.2)
+      rw [pieces_cons, pieces_feeds] at this
+      exact this
+  | read count attempts src script =>
+    obtain ⟨w, e, g⟩ := r
+    obtain ⟨v, q, evs, hv, hsim, hq, hev, hrel⟩ := hinv
+    simp only at hv hsim hrel
+    obtain ⟨w1, ar', res, hrn, hv1, _, hpush, _, herr, hokr⟩ :=
+      World.readN_spec w i v ⟨src, script⟩ count attempts hv hsim.inv
+    have hro := readOwn_eq w i v ⟨src, script⟩ count attempts hv w1 ar' res _ hrn hv1
+    have hsim1 : SimV (w1.setIov i (some { v with arena := ar' })) { v with arena := ar' } g e.toks q :=
+      hsim.pushed0 hpush
+    have hv2 : (w1.setIov i (some { v with arena := ar' })).iov i = some { v with arena := ar' } := by simp
+    cases hres : (ReadN.readNCore ⟨src, script⟩ count attempts).res with
+    | err k =>
+      have hre := herr k hres
+      subst hre
+      refine ⟨⟨w1.setIov i (some { v with arena := ar' }), e, g⟩, acc, ?_, ?_, ?_⟩
+      · simp only [encCallA, encodeRead, hro, Option.map_some]
+      · have : ainputOf [ACall.read count attempts src script] = [] := by
+          simp [ainputOf, apieces, readPiece, hres]
+        rw [this, List.append_nil]
+        exact ⟨_, q, evs, hv2, hsim1, hq, hev, hrel⟩
+      · intro rest
+        simp [apieces, readPiece, hres]
+    | ok got =>
+      obtain ⟨a, hra, hal, hab, hheld⟩ := hokr got hres
+      subst hra
+      have hin : ainputOf [ACall.read count attempts src script] = got := by
+        simp [ainputOf, apieces, readPiece, hres]
+      rw [hin]
+      have hgo : ∀ (e' : EncW), e'.st = (Enc.feedAll p e.st e.nid .borrow got).1 →
+          e'.nid = (Enc.feedAll p e.st e.nid .borrow got).2.1 →
+          ∀ rest, Enc.runPieces.go p (apieces (.read count attempts src script :: rest)) e.st e.nid acc =
+            Enc.runPieces.go p (apieces rest) e'.st e'.nid (acc ++ (Enc.feedAll p e.st e.nid .borrow got).2.2) := by
+        intro e' h1 h2 rest
+        rw [h1, h2]
+        simp only [apieces, readPiece, hres, List.cons_append, List.nil_append]
+        rfl
+      by_cases hc0 : count = 0
+      · -- nothing was asked for: an empty slice, nothing encoded, no anchor pushed
+        have hg0 : got = [] := by
+          subst hc0
+          have : ReadN.readNCore ⟨src, script⟩ 0 attempts = ⟨.ok [], [], ⟨src, script⟩⟩ := by simp [ReadN.readNCore]
+          rw [this] at hres
+          simp only [ReadN.ReadRes.ok.injEq] at hres
+          exact hres.symm
+        subst hg0
+        have hl0 : a.slice.len = 0 := by simpa using hal
+        refine ⟨⟨w1.setIov i (some { v with arena := ar' }), e, g⟩, acc ++ (Enc.feedAll p e.st e.nid .borrow []).2.2, ?_, ?_,
+          hgo e (by simp [Enc.feedAll, feed_nil]) (by simp [Enc.feedAll, feed_nil])⟩
+        · simp only [encCallA, encodeRead, hro, encodeAnchored, hab, List.length_nil, encFeed_nil, pushAnchorOf, hl0,
+            if_true, Option.map_some]
+        · simp only [List.append_nil, Enc.feedAll, feed_nil]
+          exact ⟨_, q, evs, hv2, hsim1, hq, hev, hrel⟩
+      · obtain ⟨hheld1, c, hanc, hreg⟩ := hheld (by omega)
+        obtain ⟨w3, e3, k1, k2, k3, k4⟩ := encFeed_runH p hp i got a.slice _ _ e g input acc q evs hv2 hsim1 hq hev hrel
+          hheld1 hab
+        obtain ⟨v3, q3, evs3, j1, j2, j3, j4, j5⟩ := k2
+        simp only at j1 j2 j5
+        by_cases hl0 : a.slice.len = 0
+        · refine ⟨⟨w3, e3, g⟩, _, ?_, ⟨v3, q3, evs3, j1, j2, j3, j4, j5⟩, hgo e3 k3 k4⟩
+          simp only [encCallA, encodeRead, hro, encodeAnchored, hab, k1, pushAnchorOf, hl0, if_true, Option.map_some]
+        · obtain ⟨m1, m2⟩ := World.pushAnchor_spec w3 i v3 a.anchor j1 j2.inv
+          refine ⟨⟨w3.setIov i (some { v3 with anchors := v3.anchors ++ [{ a.anchor with count := 0 }] }), e3, g⟩, _, ?_,
+            ⟨_, q3, evs3, by simp, j2.pushed0 m2, j3, j4, j5⟩, hgo e3 k3 k4⟩
+          simp only [encCallA, encodeRead, hro, encodeAnchored, hab, k1, pushAnchorOf, hl0, if_false, m1, Option.map_some]
+
 end Woodpile.EncWorld
